@@ -24,18 +24,23 @@ class _Boom(Exception):
 
 
 class FakePool:
-    def __init__(self):
+    def __init__(self, fault=0):
         self.closed = 0
         self.joined = 0
+        self.fault = fault  # 1: close() raises, 2: join() raises (e.g. interrupted while waiting)
 
     def map(self, fn, it):
         return list(map(fn, it))
 
     def close(self):
         self.closed += 1
+        if self.fault == 1:
+            raise _Boom()
 
     def join(self):
         self.joined += 1
+        if self.fault == 2:
+            raise _Boom()
 
 
 def _ll(samples, map_fn=map):
@@ -60,7 +65,7 @@ def _same(s1, s2):
     return s1[0] is s2[0] and s1[1] is s2[1] and s1[2] is s2[2] and s1[3] == s2[3]
 
 
-def _nest(a, prog, level, exc_pos, close_pool, par_prior, pools, ok, same_path=False):
+def _nest(a, prog, level, exc_pos, close_pool, par_prior, pools, ok, same_path=False, fault_level=-1, fault_kind=0, handles=None):
     """Enter level `level` of the program, recurse, leave; record violations."""
     if exc_pos == level:
         raise _Boom()
@@ -70,7 +75,7 @@ def _nest(a, prog, level, exc_pos, close_pool, par_prior, pools, ok, same_path=F
     kind = prog[level]
     try:
         if kind == 0:
-            pool = FakePool()
+            pool = FakePool(fault_kind if level == fault_level else 0)
             pools.append(pool)
             with a.enable_pool(pool, close_pool=close_pool, parallelize_prior=par_prior) as p:
                 if p is not pool:
@@ -81,16 +86,18 @@ def _nest(a, prog, level, exc_pos, close_pool, par_prior, pools, ok, same_path=F
                     ok.append(False)
                 if (not par_prior) and a.log_prior is not before[1]:
                     ok.append(False)
-                _nest(a, prog, level + 1, exc_pos, close_pool, par_prior, pools, ok, same_path)
+                _nest(a, prog, level + 1, exc_pos, close_pool, par_prior, pools, ok, same_path, fault_level, fault_kind, handles)
         else:
             path = "outer.h5" if same_path else "file%d.h5" % level
-            with a.auto_checkpoint(path, every=level + 1) as inst:
+            # a context-manager handle may be created long before it is entered
+            cm = handles[level] if handles is not None else a.auto_checkpoint(path, every=level + 1)
+            with cm as inst:
                 if inst is not a:
                     ok.append(False)
                 d = getattr(a, "_checkpoint_defaults", None)
                 if not (isinstance(d, dict) and d.get("path") == path and d.get("every") == level + 1):
                     ok.append(False)
-                _nest(a, prog, level + 1, exc_pos, close_pool, par_prior, pools, ok, same_path)
+                _nest(a, prog, level + 1, exc_pos, close_pool, par_prior, pools, ok, same_path, fault_level, fault_kind, handles)
     finally:
         after = _snapshot(a)
         if not _same(before, after):
@@ -151,3 +158,77 @@ def _twin(prog: List[int], exc_pos: int, close_pool: bool, par_prior: bool, pres
     post: _ == False
     """
     return _drive(prog, exc_pos, close_pool, par_prior, preset_defaults)
+
+
+def _drive_fault(prog: List[int], exc_pos: int, close_pool: bool, par_prior: bool, fault_level: int, fault_join: bool) -> bool:
+    """A pool whose shutdown raises (close() or join(), e.g. interrupted while
+    waiting for the workers): the overrides must be restored all the same."""
+    a = Aspire(log_likelihood=_ll, log_prior=_lp, dims=1)
+    start = _snapshot(a)
+    pools: List[FakePool] = []
+    ok: List[bool] = []
+    try:
+        _nest(a, prog, 0, exc_pos, close_pool, par_prior, pools, ok, False, fault_level, 2 if fault_join else 1)
+    except _Boom:
+        pass
+    if not _same(start, _snapshot(a)):
+        return False
+    for p in pools:
+        if p.closed > 1 or p.joined > 1 or ((not close_pool) and (p.closed or p.joined)):
+            return False
+    return len(ok) == 0
+
+
+def _run_fault(prog: List[int], exc_pos: int, close_pool: bool, par_prior: bool, fault_level: int, fault_join: bool) -> bool:
+    """
+    pre: len(prog) <= 2
+    pre: all(0 <= k <= 1 for k in prog)
+    pre: -1 <= exc_pos <= 2
+    pre: 0 <= fault_level <= 1
+    post: _ == True
+    """
+    return _drive_fault(prog, exc_pos, close_pool, par_prior, fault_level, fault_join)
+
+
+def _drive_handles(prog: List[int], exc_pos: int, preset_defaults: bool, same_path: bool, inside_outer: bool) -> bool:
+    """The auto_checkpoint handles of all levels are created up front (or, with
+    inside_outer, inside a context that has ended by the time they are entered)
+    and entered later: what a level restores on exit is what was in force when
+    it was ENTERED."""
+    a = Aspire(log_likelihood=_ll, log_prior=_lp, dims=1)
+    if preset_defaults:
+        a._checkpoint_defaults = {"path": "outer.h5", "every": 7, "save_config": True, "save_flow": True, "saved_config": False, "saved_flow": False}
+    start = _snapshot(a)
+
+    def make():
+        return [a.auto_checkpoint("outer.h5" if same_path else "file%d.h5" % lv, every=lv + 1) if k == 1 else None for lv, k in enumerate(prog)]
+
+    if inside_outer:
+        with a.auto_checkpoint("gone.h5", every=9):
+            handles = make()
+    else:
+        handles = make()
+    if not _same(start, _snapshot(a)):
+        return False
+    pools: List[FakePool] = []
+    ok: List[bool] = []
+    raised = False
+    try:
+        _nest(a, prog, 0, exc_pos, True, False, pools, ok, same_path, -1, 0, handles)
+    except _Boom:
+        raised = True
+    if raised != (0 <= exc_pos <= len(prog)):
+        return False
+    if not _same(start, _snapshot(a)):
+        return False
+    return len(ok) == 0
+
+
+def _run_handles(prog: List[int], exc_pos: int, preset_defaults: bool, same_path: bool, inside_outer: bool) -> bool:
+    """
+    pre: len(prog) <= 3
+    pre: all(0 <= k <= 1 for k in prog)
+    pre: -1 <= exc_pos <= 3
+    post: _ == True
+    """
+    return _drive_handles(prog, exc_pos, preset_defaults, same_path, inside_outer)
